@@ -13,3 +13,4 @@ import MimicProps.C03
 #print axioms MimicProps.C03.packet_kinds_distinct
 #print axioms MimicProps.C03.reply_builders_are_code
 #print axioms MimicProps.C03.code_ok_err_roundtrip
+#print axioms MimicProps.C03.handler_skeletons
